@@ -5,6 +5,7 @@ import (
 	"encoding/base64"
 	"encoding/json"
 	"fmt"
+	"os"
 	"strings"
 	"testing"
 
@@ -14,6 +15,7 @@ import (
 	"pgregory.net/rapid"
 
 	"verifharness/simnet"
+	"verifharness/world"
 )
 
 // rawKey is a CompositeKey without any validation, to test compkey itself.
@@ -468,4 +470,63 @@ func init() {
 			t.Fatalf("violation reproduced: %s", msg)
 		}
 	}
+}
+
+// TestC18Genesis : the string form of the AOL keys as the MODULE writes and reads it — topics
+// with validator-admitted names (including the dot names "." and "..", separators-lookalikes,
+// prefixes of one another) are created by transactions, the chain is exported and re-initialised,
+// and every topic, writer and record must be back under its own key.
+func TestC18Genesis(t *testing.T) {
+	st := newPureStats("C18")
+	defer st.flush()
+	special := []string{".", "..", "...", "a.b", "a..b", "-", "_", "a", "A", "..a", "a..", "0", "a-b", "a_b", "1.0"}
+	rapid.Check(t, func(rt *rapid.T) {
+		w, err := world.New(world.Options{Prop: "C18", Also: alsoSet([]string{"C01", "C13"}), Open: OpenFindings()})
+		if err != nil {
+			rt.Fatalf("world: %v", err)
+		}
+		send := func(signer int, m sdk.Msg) {
+			if err := w.Apply(world.Step{Kind: "tx", Tx: &world.TxStep{Msgs: []world.MsgJSON{world.EncodeMsg(m)}, Signers: []simnet.SignerSpec{{Acct: signer}}}}); err != nil {
+				rt.Fatalf("ORACLE C18: %v", err)
+			}
+		}
+		n := rapid.IntRange(1, 3).Draw(rt, "topics")
+		var names []string
+		for i := 0; i < n; i++ {
+			name := rapid.SampledFrom(special).Draw(rt, "name")
+			if rapid.IntRange(0, 3).Draw(rt, "random-name") == 0 {
+				b := make([]byte, rapid.IntRange(1, 4).Draw(rt, "len"))
+				for j := range b {
+					b[j] = byte(rapid.IntRange(0x20, 0x7e).Draw(rt, "c"))
+				}
+				name = string(b)
+			}
+			owner := rapid.IntRange(0, 1).Draw(rt, "owner")
+			if (&aoltypes.MsgCreateTopicRequest{TopicName: name, OwnerAddress: w.Accts[owner].Bech}).ValidateBasic() != nil {
+				continue
+			}
+			names = append(names, name)
+			send(owner, &aoltypes.MsgCreateTopicRequest{TopicName: name, OwnerAddress: w.Accts[owner].Bech})
+			send(owner, &aoltypes.MsgAddWriterRequest{TopicName: name, Moniker: "m", WriterAddress: w.Accts[2].Bech, OwnerAddress: w.Accts[owner].Bech})
+			for r := rapid.IntRange(0, 2).Draw(rt, "records"); r > 0; r-- {
+				send(2, &aoltypes.MsgAddRecordRequest{TopicName: name, Key: []byte("k"), Value: []byte("v"), WriterAddress: w.Accts[2].Bech, OwnerAddress: w.Accts[owner].Bech})
+			}
+		}
+		for _, s := range []world.Step{{Kind: "commit", DT: 5}, {Kind: "export_import", ZeroHeight: rapid.Bool().Draw(rt, "zero-height")}} {
+			if err := w.Apply(s); err != nil {
+				if p := os.Getenv("VERIF_REPLAY_OUT"); p != "" {
+					_ = w.WriteReplay(p, map[string]interface{}{"property": "C18", "violation": err.Error()})
+				}
+				rt.Fatalf("ORACLE C18: the module's genesis string form does not bring the keys back: %v", err)
+			}
+		}
+		dots := false
+		for _, nm := range names {
+			dots = dots || strings.Trim(nm, ".") == ""
+		}
+		st.add(len(names) > 0, hash8([]byte(strings.Join(names, "\x00"))), map[string]interface{}{"topics": names}, "genesis string form through the module")
+		if dots {
+			st.label("c18 topic named with dots only", 1)
+		}
+	})
 }
